@@ -117,6 +117,13 @@ impl Live {
     }
 
     pub fn resync(&mut self) {
+        let (vc, vr) = self.vt.size();
+        if (vc, vr) != (self.hid.cols, self.hid.rows) {
+            // the terminal changed its size on its own (possible only on a changed tree): follow it
+            harness(|| self.hid.resize_hidden(vc, vr));
+            self.cols = vc;
+            self.rows = vr;
+        }
         let c = self.vt.cursor();
         let app = self.vt.cursor_key_app_mode();
         harness(|| self.hid.adopt_cursor(c.col, c.row, c.visible, app));
@@ -348,7 +355,10 @@ pub fn gen_session(r: &mut Rng, cfg: &Config, o: &SessionOpts, atoms: &mut Vec<A
     let mut sparser = Parser::new();
     let mut alt = false;
     let (mut cols, mut rows) = (cfg.cols, cfg.rows);
-    let ntok = r.range(p.min_tokens, p.max_tokens);
+    // gigantic screens: a resize would re-wrap millions of cells into millions of rows (legitimate
+    // work, but minutes of it) - keep their geometry fixed and their sessions short
+    let gigantic = cfg.cols * cfg.rows > 20_000;
+    let ntok = if gigantic { r.range(p.min_tokens.min(12), p.max_tokens.min(12)) } else { r.range(p.min_tokens, p.max_tokens) };
 
     let feed_shadow = |shadow: &mut Vt, sparser: &mut Parser, alt: &mut bool, s: &str| {
         for ch in s.chars() {
@@ -389,7 +399,7 @@ pub fn gen_session(r: &mut Rng, cfg: &Config, o: &SessionOpts, atoms: &mut Vec<A
         let inflight = pending || alt || sparser.state != State::Ground;
         let boost = if inflight { p.boost.max(1) as u64 } else { 1 };
         let mut evs: Vec<Event> = vec![];
-        if p.resize_pm > 0 && r.below(1000) < p.resize_pm as u64 * boost {
+        if !gigantic && p.resize_pm > 0 && r.below(1000) < p.resize_pm as u64 * boost {
             let (c, rw) = gen_resize(r, cols, rows, o.max_cols, o.max_rows);
             evs.push(Event::Resize { cols: c, rows: rw, drain: Drain::All });
         }
